@@ -179,8 +179,9 @@ def line_infos(actions, e):
     return out
 
 
-def install_decision_spy(log):
-    """record, for every forward call of Eups.setup in call order, the version of the product it decided on"""
+def install_decision_spy(log, names=None):
+    """record, for every forward call of Eups.setup in call order, the version of the product it decided on
+    (and, in names, the product name it was asked for)"""
     import eups
     P = sys.modules["eups.Product"]
     E = eups.Eups
@@ -195,6 +196,8 @@ def install_decision_spy(log):
         if fwd:
             frame["idx"] = len(log)
             log.append(None)
+            if names is not None:
+                names.append(productName)
         stack.append(frame)
         try:
             return orig_setup(self, productName, versionName, fwd, *a, **k)
@@ -236,14 +239,15 @@ def run_scenario(world, requests, env0):
                 acts = tbl.actions(FLAVOR, setupType=e.setupType) if tbl else []
                 parsed["%s %s" % (name, v)] = {"dir": p.dir, "actions": model_actions(acts),
                                                "lines": line_infos(acts, e), "tags": [str(t) for t in p.tags]}
-        log = []
-        install_decision_spy(log)
+        log, names = [], []
+        install_decision_spy(log, names)
         records = []
         for rq in requests:
             sys.modules["eups.db.Database"]._databases.clear()
             os.environ.clear()
             os.environ.update(env)
             del log[:]
+            del names[:]
             before = dict(env)
             kw = {}
             if rq.get("keep"):
@@ -261,7 +265,7 @@ def run_scenario(world, requests, env0):
             after = dict(os.environ)
             rec = {"request": rq, "before": before, "after": after if ok else before,
                    "raw_after": after, "aliases": dict(e.aliases), "ok": bool(ok), "outcome": outcome,
-                   "decisions": list(log)}
+                   "decisions": list(log), "decision_names": list(names)}
             records.append(rec)
             if ok:
                 env = after
